@@ -39,6 +39,12 @@ def run(chk):
         for cleaned in (True, False):
             for abs_ in (['A'], ['B'], ['A', 'B']):
                 cases.append(dict(cat=cat, mask=full, ABs=abs_, cleaned=cleaned, ci=ci))
+    # single-file and partial-list loads of multi-slab catalogs (the particle / cleaning files must be those of the SAME superslab number)
+    for ci, cat in enumerate(cats):
+        if len(cat) >= 2:
+            for sel in ([len(cat) - 1], list(range(1, len(cat)))):
+                m = [[s in sel] * len(sl) for s, sl in enumerate(cat)]
+                cases.append(dict(cat=cat, mask=m, ABs=['A', 'B'], cleaned=bool((ci + len(sel)) % 2), ci=ci, partial=sel))
     cc.oracle(chk, cases)
     chk.part('M2_oracle', cases=len(cases), catalogs=len(cats))
     import gc
@@ -57,7 +63,13 @@ def run(chk):
             ub = UNPACK[(r // 2) % len(UNPACK)] if ('pid' in sub) else False
             passthrough = c['cleaned'] and (r % 11 == 5)
             pathform = ['zdir', 'halo_info', 'filelist', 'strpath'][r % 4]
-            if pathform == 'zdir':
+            if c.get('partial'):
+                pathform = 'partial-list' if len(c['partial']) > 1 else 'single-file'
+                path = [os.path.join(zd, 'halo_info', f'halo_info_{s:03d}.asdf') for s in c['partial']]
+                if len(path) == 1:
+                    path = path[0]
+                passthrough = False
+            elif pathform == 'zdir':
                 path = zd
             elif pathform == 'strpath':
                 path = str(zd) + '/'
